@@ -911,7 +911,18 @@ func (in *Interp) index(base, idx Val, et types.Type) Val {
 				mt := b.T.Underlying().(*types.Map)
 				return &TupleV{[]Val{in.zeroOf(mt.Elem()), cB(false)}}
 			}
-			// enumerate the key
+			// enumerate the key over the table's keys (and one value outside it)
+			if ie.K == kBV && len(ie.Segs) >= 1 && ie.Segs[0].A != nil && !ie.Segs[0].A.Env {
+				sg := ie.Segs[0]
+				var cands []uint64
+				for k := range b.Lit {
+					var v int64
+					if _, err := fmt.Sscan(k, &v); err == nil {
+						cands = append(cands, uint64(v)>>0)
+					}
+				}
+				panic(need{atom: sg.A, lo: sg.Lo, n: sg.N, cands: cands, reason: "map key " + ie.String()})
+			}
 			in.decide(in.mkCmp("==", ie, cI(0)), "map key")
 		}
 	case *Expr:
@@ -958,6 +969,9 @@ func (in *Interp) evalSliceExpr(fr *frame, x *ast.SliceExpr) Val {
 			}
 		}
 		r := &SliceV{Str: b.Str, ElemT: b.ElemT, Elem: b.Elem, Depth: b.Depth, Len: in.mkBin("-", hi, lo, typInfo{64, true}), bytesOf: b.bytesOf}
+		if b.made {
+			r.parent, r.viewOff = b, lo
+		}
 		if b.Ident != nil {
 			if l0, ok := lo.ConstI(); ok && l0 == 0 && hi.String() == b.Len.String() {
 				r.Ident = b.Ident
